@@ -114,9 +114,12 @@ def run(tier, seed):
     for st in STARTS:
         ex, r = vlib.tlc_export("MC_Grammar.tla", "MC_Grammar_%s_%s.cfg" % (st, "q" if quick else "t"), workers=4, timeout=1500)
         v.add_mc("MC_Grammar_" + st, r, "exhaustive derivations: %d sentences; BudgetOk, IdsDistinct" % len(ex))
-        if quick and len(ex) > 600:
+        # TLC enumerates (and checks the generator invariants on) every derivation of the budget; the real parser is run
+        # on all of them up to a cap per start symbol, beyond it on a seeded sample
+        cap = 600 if quick else 120000
+        if len(ex) > cap:
             rng.shuffle(ex)
-            ex = ex[:600]
+            ex = ex[:cap]
         for e in ex:
             ders.append((e["start"], None, e["choices"], "exhaustive"))
     nexh = len(ders)
